@@ -13,6 +13,7 @@ CLAUSE_PROPERTY = {
     "C01_Exact": "C01", "C01_OnlyAdded": "C01",
     "C03_Notes": "C03", "C03_Blame": "C03",
     "C05_WellFormed": "C05", "C02_Carried": "C02", "C14_Stutter": "C14",
+    "Twin_Obs": "C15", "Twin_Exact": "C15", "Twin_Blame": "C15",
 }
 
 
@@ -30,7 +31,14 @@ def classify(pid, clauses, run, known):
             continue
         kf = None
         for k in known:
-            if clause in k.get("clauses", []) and k.get("taint") in run["taint"]:
+            if clause not in k.get("clauses", []):
+                continue
+            if k.get("taint") is not None and k["taint"] in run["taint"]:
+                kf = k
+                break
+            # a finding may instead be delimited by a narrower TLA+ clause: the failure is the known one only
+            # if that clause still HOLDS at the same step
+            if k.get("when_holds") and (step, k["when_holds"]) not in run["viol"]:
                 kf = k
                 break
         if kf:
@@ -41,7 +49,7 @@ def classify(pid, clauses, run, known):
 
 
 def beh_of(run):
-    return [dict((k, v) for k, v in e.items() if k not in ("git", "obs")) for e in run["events"][1:]]
+    return [dict((k, v) for k, v in e.items() if k not in ("git", "obs", "twin")) for e in run["events"][1:]]
 
 
 def script_of(run):
@@ -104,9 +112,15 @@ def run_core(pid, tier, seed, plan):
                 # (DESIGN.md 4.2 - strict only where the question has one answer).
                 if render == "hostile" and any(a["a"] == "Edit" and a["kind"] in ("ind", "mod") for a in b):
                     render = "plain"
-                cfg = dict(consts, render=render, filefam=filefam, salt=rnd.randrange(13),
-                           storage=camp.get("storage", "notes"))
-                jobs.append((cfg, b, "%s-%s-%d-%s-%s" % (pid, camp["name"], i, render, filefam)))
+                twins = camp.get("twins") or [None]
+                tsel = twins if camp.get("all_twins") else [twins[(i + seed) % len(twins)]]
+                for ti, tw in enumerate(tsel):
+                    cfg = dict(consts, render=render, filefam=filefam, salt=rnd.randrange(13),
+                               storage=camp.get("storage", "notes"))
+                    if tw is not None:
+                        cfg["twin"] = tw
+                    jobs.append((cfg, b, "%s-%s-%d-%s-%s%s" % (pid, camp["name"], i, render, filefam,
+                                                              "-t%d" % twins.index(tw) if tw is not None else "")))
         results = engine.replay_many(gitai, jobs)
         errs = [(i, e) for i, (_, _, e) in enumerate(results) if e]
         total["harness_errors"] += len(errs)
@@ -114,6 +128,7 @@ def run_core(pid, tier, seed, plan):
             print("TOOL-ERROR: %d of %d replays failed in the harness, e.g.\n%s" % (len(errs), len(jobs), errs[0][1]))
             return 2
         total["replayed"] += len(jobs) - len(errs)
+        total["divergent"] = total.get("divergent", 0) + sum(1 for _, info, e in results if not e and info.get("divergent"))
         runs, tres = engine.validate(consts, results, os.path.join(cwd, "val"))
         if any(not r["accepted"] for r in tres):
             bad = [r for r in tres if not r["accepted"]][0]
@@ -177,6 +192,7 @@ def run_core(pid, tier, seed, plan):
             "actions_exercised": coverage_actions,
             "runs_clean": total["clean"], "runs_with_model_drift": total["drift_runs"],
             "harness_errors": total["harness_errors"],
+            "behaviours_dropped_git_diverged": total.get("divergent", 0),
             "known_findings_hit": {k: len(v) for k, v in known_hits.items()},
         },
         "assumptions": [
